@@ -402,15 +402,15 @@ package cose
 //@ func (*Sign1Message).Verify
 //@   requires verifier_nonnil: verifier != nil
 //@   ensures once [C01, C03, C04, C06, C20]: vepoch() == old(vepoch()) || vepoch() == old(vepoch()) + 1
-//@   ensures sound [C01, C03, C06, C20]: result == nil ==> m != nil && m.Payload != nil && len(m.Signature) > 0 && vepoch() == old(vepoch()) + 1
-//@   ensures verbatim [C01, C02, C03, C06, C20]: vepoch() == old(vepoch()) + 1 ==> m != nil
+//@   ensures sound [C01, C03, C06, C12, C20]: result == nil ==> m != nil && m.Payload != nil && len(m.Signature) > 0 && vepoch() == old(vepoch()) + 1
+//@   ensures verbatim [C01, C02, C03, C06, C12, C20]: vepoch() == old(vepoch()) + 1 ==> m != nil
 //@         && result == verifier_verify(verifier, old(Sig1(ProtBytes(m.Headers), external, m.Payload)), old(bytes(m.Signature)))
 //@   ensures gate [C01, C04, C06]: m != nil && vepoch() != old(vepoch())
 //@         ==> (algPresent(m.Headers.Protected) ==> algAgrees(m.Headers.Protected, verifier_alg(verifier))) && (algPresent(m.Headers.Protected) || len(external) > 0)
 //@   ensures mismatch [C01, C04, C06]: m != nil && m.Payload != nil && len(m.Signature) > 0 && uniqueLabels(asmap(m.Headers.Protected)) && algIntMismatch(m.Headers.Protected, verifier_alg(verifier))
 //@         ==> result != nil && Is(result, ErrAlgorithmMismatch)
-//@   ensures precheck [C01, C03, C06]: (m == nil || m.Payload == nil || len(m.Signature) == 0) ==> result != nil && vepoch() == old(vepoch())
-//@   ensures complete [C01, C07]: m != nil && m.Payload != nil && len(m.Signature) > 0 && old(uniqueLabels(asmap(m.Headers.Protected)))
+//@   ensures precheck [C01, C03, C06, C12]: (m == nil || m.Payload == nil || len(m.Signature) == 0) ==> result != nil && vepoch() == old(vepoch())
+//@   ensures complete [C01, C07, C12]: m != nil && m.Payload != nil && len(m.Signature) > 0 && old(uniqueLabels(asmap(m.Headers.Protected)))
 //@         && old((algPresent(m.Headers.Protected) ==> algAgrees(m.Headers.Protected, verifier_alg(verifier))) && (algPresent(m.Headers.Protected) || len(external) > 0))
 //@         && old(tbsOK(m.Headers)) ==> vepoch() == old(vepoch()) + 1
 //@   modifies frame [C01, C06, C09, C18]: nothing
@@ -418,7 +418,7 @@ package cose
 //@ func (*Sign1Message).Sign
 //@   requires signer_nonnil: signer != nil
 //@   ensures once [C04, C20]: epoch() == old(epoch()) || epoch() == old(epoch()) + 1
-//@   ensures ok [C01, C02, C20]: err == nil ==> m != nil && epoch() == old(epoch()) + 1 && old(m.Payload) != nil
+//@   ensures ok [C01, C02, C12, C20]: err == nil ==> m != nil && epoch() == old(epoch()) + 1 && old(m.Payload) != nil
 //@         && bytes(m.Signature) == signer_sign_bytes(signer, rand, Sig1(ProtBytes(m.Headers), external, m.Payload), old(epoch()))
 //@   ensures verbatim [C02, C20]: epoch() == old(epoch()) + 1 ==> m != nil
 //@         && err == signer_sign_err(signer, rand, Sig1(ProtBytes(m.Headers), external, m.Payload), old(epoch()))
@@ -429,7 +429,7 @@ package cose
 //@         ==> (algPresent(m.Headers.Protected) ==> algAgrees(m.Headers.Protected, signer_alg(signer))) && (algPresent(m.Headers.Protected) || len(external) > 0)
 //@   ensures mismatch [C04]: m != nil && old(m.Payload) != nil && old(len(m.Signature)) == 0 && old(uniqueLabels(asmap(m.Headers.Protected))) && old(algIntMismatch(m.Headers.Protected, signer_alg(signer)))
 //@         ==> err != nil && Is(err, ErrAlgorithmMismatch) && epoch() == old(epoch())
-//@   ensures precheck [C20]: (m == nil || old(m.Payload) == nil || old(len(m.Signature)) > 0) ==> err != nil && epoch() == old(epoch())
+//@   ensures precheck [C12, C20]: (m == nil || old(m.Payload) == nil || old(len(m.Signature)) > 0) ==> err != nil && epoch() == old(epoch())
 //@   ensures ok_tbs [C01]: err == nil ==> tbsOK(m.Headers)
 //@   ensures raw_unchanged [C01]: m != nil && old(m.Headers.RawProtected) != nil ==> m.Headers.Protected == old(m.Headers.Protected)
 //@         && mapdom(asmap(m.Headers.Protected)) == old(mapdom(asmap(m.Headers.Protected))) && mapval(asmap(m.Headers.Protected)) == old(mapval(asmap(m.Headers.Protected)))
@@ -781,13 +781,13 @@ package cose
 // ===================================================================
 
 //@ func init#1
-//@   ensures enc_config [C01, C05, C07, C08, C09]: encMode != nil && encopts(encMode).Sort == 2 && encopts(encMode).IndefLength == 1
+//@   ensures enc_config [C01, C05, C07, C08, C09, C13]: encMode != nil && encopts(encMode).Sort == 2 && encopts(encMode).IndefLength == 1
 //@         && encopts(encMode).TagsMd == 0 && encopts(encMode).ShortestFloat == 0 && encopts(encMode).NaNConvert == 0 && encopts(encMode).InfConvert == 0
 //@         && encopts(encMode).BigIntConvert == 0 && encopts(encMode).Time == 0 && encopts(encMode).TimeTag == 0 && encopts(encMode).NilContainers == 0
-//@   ensures dec_config [C01, C05, C07, C08, C09]: decMode != nil && decopts(decMode).DupMapKey == 1 && decopts(decMode).IndefLength == 1 && decopts(decMode).IntDec == 1
+//@   ensures dec_config [C01, C05, C07, C08, C09, C13]: decMode != nil && decopts(decMode).DupMapKey == 1 && decopts(decMode).IndefLength == 1 && decopts(decMode).IntDec == 1
 //@         && decopts(decMode).TagsMd == 0 && decopts(decMode).MaxNestedLevels == 0 && decopts(decMode).MaxArrayElements == 0 && decopts(decMode).MaxMapPairs == 0
 //@         && decopts(decMode).TimeTag == 0 && decopts(decMode).MapKeyByteString == 0 && decopts(decMode).ExtraReturnErrors == 0 && decopts(decMode).UTF8 == 0 && decopts(decMode).DefaultMapType == nil
-//@   ensures dec_tf_config [C01, C05, C07, C08, C09]: decModeWithTagsForbidden != nil && decopts(decModeWithTagsForbidden).TagsMd == 1
+//@   ensures dec_tf_config [C01, C05, C07, C08, C09, C13]: decModeWithTagsForbidden != nil && decopts(decModeWithTagsForbidden).TagsMd == 1
 //@         && decopts(decModeWithTagsForbidden).DupMapKey == 1 && decopts(decModeWithTagsForbidden).IndefLength == 1 && decopts(decModeWithTagsForbidden).IntDec == 1
 //@         && decopts(decModeWithTagsForbidden).MaxNestedLevels == 0 && decopts(decModeWithTagsForbidden).MaxArrayElements == 0 && decopts(decModeWithTagsForbidden).MaxMapPairs == 0
 //@         && decopts(decModeWithTagsForbidden).TimeTag == 0 && decopts(decModeWithTagsForbidden).MapKeyByteString == 0 && decopts(decModeWithTagsForbidden).ExtraReturnErrors == 0
@@ -818,6 +818,7 @@ package cose
 //@         && (forall i Int :: 0 <= i && i < len(m.Signatures) ==> m.Signatures[i] != nil && len(m.Signatures[i].Signature) > 0)
 //@   ensures err_nil [C01, C20]: err != nil ==> result == nil
 //@   ensures out [C01, C08]: err == nil ==> fresh(result) && len(result) > 0
+//@   ensures cross [C08, C13]: err == nil ==> CrossIV(m.Headers.Protected, m.Headers.Unprotected)
 //@   modifies frame [C01, C18]: nothing
 //@   loop 1 invariant bounds: 0 <= idx && idx <= len(m.Signatures) && len(signatures) == idx && cap(signatures) >= len(m.Signatures) && fresh(signatures)
 //@   loop 1 invariant prefix_nonempty [C01, C11, C20]: forall j Int :: 0 <= j && j < idx ==> m.Signatures[j] != nil && len(m.Signatures[j].Signature) > 0
@@ -1025,6 +1026,9 @@ package cose
 //@   callsite emitted_headers [C01, C04, C08, C12] Sign1#1: arg2.RawProtected == nil && len(arg2.RawUnprotected) == 0 && arg2.Unprotected == headers.Unprotected
 //@         && EnvRules(arg2.Protected, arg2.Unprotected) && fresh(arg2.Protected)
 //@         && asmap(arg2.Protected)[int64(258)] == Algorithm(payload.HashAlgorithm) && arg3 == payload.HashValue && arg4 == nil
+//@   callsite base_kept [C04, C08, C12] Sign1#1: (forall k any :: k in asmap(headers.Protected) && k != int64(258) && k != int64(259) && k != int64(260)
+//@               ==> k in asmap(arg2.Protected) && asmap(arg2.Protected)[k] == asmap(headers.Protected)[k])
+//@         && (forall k any :: k in asmap(arg2.Protected) ==> k in asmap(headers.Protected) || k == int64(258) || k == int64(259) || k == int64(260))
 
 //@ func VerifyHashEnvelope
 //@   requires verifier_nonnil: verifier != nil
